@@ -1,25 +1,26 @@
-"""Scripted in-memory backends / scheduler for the C02 driver (harness side only).
+"""Scripted backends / scheduler for the C02 driver (harness side only).
 
-* ScriptedPollBackend(TrialBackend): the generic poll-based bookkeeping of
-  TrialBackend (fetch_status_results, start/resume/pause/stop_trial) is used
-  UNCHANGED; only the abstract hooks are implemented, in the way LocalBackend
-  implements them: one append-only log of reported metrics per trial (std.out is
-  opened with "a", so the log accumulates over all runs of the trial), a pause /
-  stop marker that decides the status before the process state does, and a worker
-  that is killed by pause/stop -- after it emitted `late` further reports (the
-  window between the scheduler's decision and the worker's end).
+* FakeProcLocalBackend(LocalBackend): the real LocalBackend and the generic poll-based
+  bookkeeping of TrialBackend are used UNCHANGED (marker files "pause"/"stop", std.out that is
+  appended to over all runs of a trial and re-read at every poll, _read_status); only the process
+  layer is replaced by scripted workers, which are gone only after they wrote `late` further
+  reports following a pause/stop (the window between the scheduler's decision and the worker's end).
 * ScriptedSimBackend(SimulatorBackend): the real simulator with a scripted
   `_run_job_and_collect_results` (what the tabular backends override too).
 * ScriptedScheduler(TrialScheduler): answers suggest / on_trial_result from a
   policy object; records every call.
 """
+import json
+import os
+import shutil
+import tempfile
 from pathlib import Path
 
-from syne_tune.backend.trial_backend import TrialBackend
+from syne_tune.backend.local_backend import LocalBackend
 from syne_tune.backend.trial_status import Status
 from syne_tune.backend.simulator_backend.simulator_backend import SimulatorBackend, SimulatorConfig
 from syne_tune.optimizer.scheduler import TrialScheduler, TrialSuggestion, SchedulerDecision
-from syne_tune.constants import ST_WORKER_TIMESTAMP
+from syne_tune.constants import ST_WORKER_TIMESTAMP, ST_SAGEMAKER_METRIC_TAG
 
 RUNNING, EXIT_OK, EXIT_FAIL, KILLED = "running", "ok", "fail", "killed"
 
@@ -37,16 +38,35 @@ def mk_report(ts, payload, epoch=None, elapsed=None, with_ts=True):
 
 class _Worker:
     def __init__(self):
-        self.log = []      # everything the trial's runs wrote so far (all runs)
         self.todo = []     # what the current run's worker will still write
-        self.proc = None
-        self.pause_mark = False   # LocalBackend: the files "pause" and "stop" in the trial folder
-        self.stop_mark = False
+        self.proc = None   # RUNNING | EXIT_OK | EXIT_FAIL | KILLED
 
 
-class ScriptedPollBackend(TrialBackend):
+class FakeProc:
+    """Stands for the subprocess.Popen object of a trial's current run."""
+
+    def __init__(self, backend, trial_id):
+        self.backend, self.trial_id = backend, trial_id
+
+    def poll(self):
+        return {RUNNING: None, EXIT_OK: 0, EXIT_FAIL: 1, KILLED: -9}[self.backend.w[self.trial_id].proc]
+
+    def kill(self):
+        self.backend._kill_after(self.trial_id)
+
+
+class FakeProcLocalBackend(LocalBackend):
+    """The real LocalBackend (fetch_status_results, start/resume/pause/stop_trial of TrialBackend;
+    _all_trial_results, _read_status, _pause_trial, _resume_trial, _stop_trial, stdout of
+    LocalBackend: marker files, std.out re-read at every poll) -- only the process layer is replaced:
+    `_schedule` starts no process but a scripted worker that appends report lines to the real
+    std.out when the world says so, and that is gone only after it wrote `next_late` further reports
+    when it is killed."""
+
     def __init__(self):
-        super().__init__()
+        self._tmp = tempfile.mkdtemp(prefix="c02-local-")
+        super().__init__(entry_point=__file__, rotate_gpus=False)
+        self.local_path = Path(self._tmp)
         self.w = {}
         self.next_run = []      # report lists for the next _schedule calls
         self.next_late = 0      # reports the worker still writes after the next pause/stop decision
@@ -55,19 +75,30 @@ class ScriptedPollBackend(TrialBackend):
         self.npolls = 0
         self.calls = []         # record of backend-level operations, in order
 
+    def set_path(self, results_root=None, tuner_name=None):
+        pass                    # keep the private temporary folder (one per backend object)
+
+    def close(self):
+        shutil.rmtree(self._tmp, ignore_errors=True)
+
     # ---- world -------------------------------------------------------------
+    def _write(self, trial_id, reports):
+        with open(self.trial_path(trial_id) / "std.out", "a") as f:
+            for r in reports:
+                f.write("[%s]: %s\n" % (ST_SAGEMAKER_METRIC_TAG, json.dumps(r)))
+
     def emit(self, trial_id, k):
         w = self.w.get(trial_id)
         if w is None or w.proc != RUNNING:
             return
-        w.log.extend(w.todo[:k])
+        self._write(trial_id, w.todo[:k])
         w.todo = w.todo[k:]
 
     def finish(self, trial_id):
         w = self.w.get(trial_id)
         if w is None or w.proc != RUNNING:
             return
-        w.log.extend(w.todo)
+        self._write(trial_id, w.todo)
         w.todo = []
         w.proc = EXIT_OK
 
@@ -88,52 +119,28 @@ class ScriptedPollBackend(TrialBackend):
                 self.fail(tid, k)
             self.calls.append((kind, tid, k))
 
-    # ---- hooks of TrialBackend ----------------------------------------------
+    def _kill_after(self, trial_id):
+        late, self.next_late = self.next_late, 0
+        w = self.w[trial_id]
+        if w.proc == RUNNING:
+            self.late_emitted.setdefault(trial_id, []).extend(r["v"] for r in w.todo[:late])
+            self._write(trial_id, w.todo[:late])
+            w.todo = w.todo[late:]
+            w.proc = KILLED
+
+    # ---- the process layer of LocalBackend -------------------------------------
     def queue_run(self, trial_id, reports):
         self.next_run.append(list(reports))
 
     def _schedule(self, trial_id, config):
-        reports = self.next_run.pop(0)
+        os.makedirs(self.trial_path(trial_id), exist_ok=True)
+        for name in ("std.out", "std.err"):
+            open(self.trial_path(trial_id) / name, "a").close()
         w = self.w.setdefault(trial_id, _Worker())
-        w.todo = list(reports)
+        w.todo = list(self.next_run.pop(0))
         w.proc = RUNNING
-
-    def _status(self, w):
-        if w.stop_mark:
-            return Status.stopped
-        if w.pause_mark:
-            return Status.paused
-        return {RUNNING: Status.in_progress, EXIT_OK: Status.completed, EXIT_FAIL: Status.failed,
-                KILLED: Status.in_progress}[w.proc]
-
-    def _all_trial_results(self, trial_ids):
-        res = []
-        for trial_id in trial_ids:
-            w = self.w[trial_id]
-            res.append(self._trial_dict[trial_id].add_results(
-                metrics=list(w.log), status=self._status(w), training_end_time=None))
-        return res
-
-    def _kill_after(self, trial_id, late):
-        w = self.w[trial_id]
-        if w.proc == RUNNING:
-            self.late_emitted.setdefault(trial_id, []).extend(r["v"] for r in w.todo[:late])
-            w.log.extend(w.todo[:late])
-            w.todo = w.todo[late:]
-            w.proc = KILLED
-
-    def _pause_trial(self, trial_id, result):
-        self.w[trial_id].pause_mark = True
-        late, self.next_late = self.next_late, 0
-        self._kill_after(trial_id, late)
-
-    def _resume_trial(self, trial_id):
-        self.w[trial_id].pause_mark = False
-
-    def _stop_trial(self, trial_id, result):
-        self.w[trial_id].stop_mark = True
-        late, self.next_late = self.next_late, 0
-        self._kill_after(trial_id, late)
+        self.trial_subprocess[trial_id] = FakeProc(self, trial_id)
+        self._busy_trial_id_candidates.add(trial_id)
 
     # ---- recording wrappers (call the real implementation) -------------------
     def fetch_status_results(self, trial_ids):
@@ -156,28 +163,6 @@ class ScriptedPollBackend(TrialBackend):
         t = super().resume_trial(trial_id, new_config)
         self.calls.append(("resume", trial_id, reports))
         return t
-
-    # ---- the rest of the interface ---------------------------------------------
-    def busy_trial_ids(self):
-        return [(i, Status.in_progress) for i, w in self.w.items() if not (w.pause_mark or w.stop_mark) and w.proc == RUNNING]
-
-    def stdout(self, trial_id):
-        return []
-
-    def stderr(self, trial_id):
-        return []
-
-    def copy_checkpoint(self, src_trial_id, tgt_trial_id):
-        pass
-
-    def delete_checkpoint(self, trial_id):
-        pass
-
-    def entrypoint_path(self):
-        return Path("scripted_c02.py")
-
-    def set_entrypoint(self, entry_point):
-        pass
 
 
 class FakeTime:
